@@ -28,7 +28,7 @@ extern "C" __attribute__((used)) const char* __ubsan_default_options() {
     return "halt_on_error=1:exitcode=78:print_stacktrace=1";
 }
 extern "C" __attribute__((used)) const char* __tsan_default_options() {
-    return "exitcode=66:halt_on_error=1:report_signal_unsafe=0:second_deadlock_stack=1";
+    return "exitcode=66:halt_on_error=1:report_signal_unsafe=0:second_deadlock_stack=1:report_thread_leaks=0";
 }
 
 // The harness' own bookkeeping (event log, GUI, stream buffers) is serialised by the baton, which TSan cannot see;
